@@ -13,14 +13,31 @@ def E():
 
 
 # ------------------------------------------------------------------------------------------
-class SymBool:
-    __slots__ = ("t",)
+def _atom_term(atom):
+    v, op, c, neg = atom
+    t = (v <= c) if op == "<=" else ((v >= c) if op == ">=" else (v == c))
+    return z3.Not(t) if neg else t
 
-    def __init__(self, t):
-        self.t = t
+
+class SymBool:
+    """atom = (var, op, const, negated) is a pre-parsed single variable comparison; the z3
+    term is then only built when the engine cannot fold it against the variable's bounds."""
+    __slots__ = ("_t", "atom")
+
+    def __init__(self, t, atom=None):
+        self._t = t
+        self.atom = atom
+
+    @property
+    def t(self):
+        if self._t is None:
+            self._t = _atom_term(self.atom)
+        return self._t
 
     def __bool__(self):
-        return E().decide(self.t)
+        if self.atom is not None:
+            return E().decide_atom(self)
+        return E().decide(self._t)
 
     def __plain__(self):
         return bool(self)
@@ -131,39 +148,97 @@ def _mkb(t):
     return SymBool(t)
 
 
+def _is_var(t):
+    return z3.is_const(t) and t.decl().kind() == z3.Z3_OP_UNINTERPRETED
+
+
 class SymInt:
-    """unbounded mathematical integer (Python int semantics)."""
-    __slots__ = ("t",)
+    """unbounded mathematical integer (Python int semantics).
 
-    def __init__(self, t):
-        self.t = t
+    Linear terms are kept in normal form lin = ({var_id: (var, coeff)}, const); arithmetic
+    with constants / other linear terms and comparisons against constants then never build
+    nested z3 terms, and comparisons that are decided by the known variable bounds (interval
+    arithmetic) cost no solver query -- long concrete loops over symbolic counters stay cheap."""
+    __slots__ = ("_t", "lin")
 
-    def _bin(self, o, f):
+    def __init__(self, t, lin=None):
+        self._t = t
+        self.lin = lin
+        if lin is None and t is not None and _is_var(t):
+            self.lin = ({t.get_id(): (t, 1)}, 0)
+
+    @property
+    def t(self):
+        if self._t is None:
+            terms, b = self.lin
+            acc = None
+            for v, a in terms.values():
+                x = v if a == 1 else a * v
+                acc = x if acc is None else acc + x
+            if b != 0 or acc is None:
+                acc = z3.IntVal(b) if acc is None else acc + b
+            self._t = acc
+        return self._t
+
+    @staticmethod
+    def _mklin(terms, b):
+        terms = {k: va for k, va in terms.items() if va[1] != 0}
+        if not terms:
+            return b
+        return SymInt(None, (terms, b))
+
+    def _bin(self, o, f, op=None):
+        if self.lin is not None and op is not None:
+            terms, b = self.lin
+            if type(o) is int:
+                if op == "+":
+                    return SymInt(None, (terms, b + o))
+                if op == "-":
+                    return SymInt(None, (terms, b - o))
+                if op == "r-":
+                    return SymInt(None, ({k: (v, -a) for k, (v, a) in terms.items()}, o - b))
+                if op == "*":
+                    return self._mklin({k: (v, a * o) for k, (v, a) in terms.items()}, b * o)
+            elif type(o) is SymInt and o.lin is not None and op != "*":
+                ot, ob = o.lin
+                sign = 1 if op == "+" else -1
+                if op == "r-":
+                    terms, b, ot, ob = ot, ob, terms, b
+                nt = dict(terms)
+                for k, (v, a) in ot.items():
+                    if k in nt:
+                        nt[k] = (v, nt[k][1] + sign * a)
+                    else:
+                        nt[k] = (v, sign * a)
+                return self._mklin(nt, b + sign * ob)
         ot = iterm(o)
         if ot is None:
             if isinstance(o, float):
                 return SymFloat.of_int(self)._binf(o, f)
-            if isinstance(o, SymFloat):
-                return NotImplemented
             return NotImplemented
         return _mk(f(self.t, ot))
 
-    def __add__(self, o): return self._bin(o, lambda a, b: a + b)
-    def __radd__(self, o): return self._bin(o, lambda a, b: b + a)
-    def __sub__(self, o): return self._bin(o, lambda a, b: a - b)
-    def __rsub__(self, o): return self._bin(o, lambda a, b: b - a)
+    def __add__(self, o): return self._bin(o, lambda a, b: a + b, "+")
+    def __radd__(self, o): return self._bin(o, lambda a, b: b + a, "+")
+    def __sub__(self, o): return self._bin(o, lambda a, b: a - b, "-")
+    def __rsub__(self, o): return self._bin(o, lambda a, b: b - a, "r-")
 
     def __mul__(self, o):
         if isinstance(o, (str, list, tuple)) or type(o).__name__ in ("SymStr",):
             return o.__mul__(int(self)) if not isinstance(o, (str, list, tuple)) else o * int(self)
-        return self._bin(o, lambda a, b: a * b)
+        return self._bin(o, lambda a, b: a * b, "*")
 
     def __rmul__(self, o):
         if isinstance(o, (str, list, tuple)):
             return o * int(self)
-        return self._bin(o, lambda a, b: b * a)
+        return self._bin(o, lambda a, b: b * a, "*")
 
-    def __neg__(self): return _mk(-self.t)
+    def __neg__(self):
+        if self.lin is not None:
+            terms, b = self.lin
+            return SymInt(None, ({k: (v, -a) for k, (v, a) in terms.items()}, -b))
+        return _mk(-self.t)
+
     def __pos__(self): return self
     def __abs__(self): return _mk(z3.If(self.t >= 0, self.t, -self.t))
 
@@ -198,7 +273,7 @@ class SymInt:
         return (o // self, o % self)
 
     def __truediv__(self, o):
-        if isinstance(o, (int, SymInt)) and not isinstance(o, bool):
+        if isinstance(o, (int, SymInt)):
             return SymFloat.ratio(self, o)
         if isinstance(o, float):
             return SymFloat.of_int(self) / o
@@ -229,7 +304,73 @@ class SymInt:
         n = int(self)
         return o ** n
 
-    def _cmp(self, o, f):
+    _FLIP = {"<": ">", "<=": ">=", ">": "<", ">=": "<=", "==": "==", "!=": "!="}
+
+    def _lin_cmp(self, op, c):
+        """(sum a_i*v_i + b)  op  c"""
+        terms, b = self.lin
+        r = c - b
+        if len(terms) == 1:
+            (v, a), = terms.values()
+            if a < 0:
+                a, r, op = -a, -r, self._FLIP[op]
+            if op == "<=":
+                return SymBool(None, (v, "<=", r // a, False))
+            if op == "<":
+                return SymBool(None, (v, "<=", (r - 1) // a, False))
+            if op == ">=":
+                return SymBool(None, (v, ">=", -((-r) // a), False))
+            if op == ">":
+                return SymBool(None, (v, ">=", -((-(r + 1)) // a), False))
+            if r % a != 0:
+                return op == "!="
+            return SymBool(None, (v, "==", r // a, op == "!="))
+        # several variables: interval arithmetic over the engine's variable bounds
+        e = E()
+        lo = hi = 0
+        for k, (v, a) in terms.items():
+            vlo, vhi = e.bounds.get(k, (None, None))
+            if a > 0:
+                lo = None if (lo is None or vlo is None) else lo + a * vlo
+                hi = None if (hi is None or vhi is None) else hi + a * vhi
+            else:
+                lo = None if (lo is None or vhi is None) else lo + a * vhi
+                hi = None if (hi is None or vlo is None) else hi + a * vlo
+        res = None
+        if op in ("<=", "<"):
+            k = r if op == "<=" else r - 1
+            if hi is not None and hi <= k:
+                res = True
+            elif lo is not None and lo > k:
+                res = False
+        elif op in (">=", ">"):
+            k = r if op == ">=" else r + 1
+            if lo is not None and lo >= k:
+                res = True
+            elif hi is not None and hi < k:
+                res = False
+        else:
+            if (lo is not None and r < lo) or (hi is not None and r > hi):
+                res = (op == "!=")
+        if res is not None:
+            e.stats.folded += 1
+            return res
+        lhs = SymInt(None, (terms, 0)).t
+        t = {"<=": lhs <= r, "<": lhs < r, ">=": lhs >= r, ">": lhs > r, "==": lhs == r,
+             "!=": lhs != r}[op]
+        return SymBool(t)
+
+    def _cmp(self, o, f, op):
+        if self.lin is not None:
+            if type(o) is int:
+                return self._lin_cmp(op, o)
+            if type(o) is SymInt and o.lin is not None:
+                d = self - o
+                if type(d) is int:
+                    return {"<": d < 0, "<=": d <= 0, ">": d > 0, ">=": d >= 0, "==": d == 0,
+                            "!=": d != 0}[op]
+                if d.lin is not None:
+                    return d._lin_cmp(op, 0)
         ot = iterm(o)
         if ot is None:
             if isinstance(o, float):
@@ -237,17 +378,17 @@ class SymInt:
             return NotImplemented
         return _mkb(f(self.t, ot))
 
-    def __lt__(self, o): return self._cmp(o, lambda a, b: a < b)
-    def __le__(self, o): return self._cmp(o, lambda a, b: a <= b)
-    def __gt__(self, o): return self._cmp(o, lambda a, b: a > b)
-    def __ge__(self, o): return self._cmp(o, lambda a, b: a >= b)
+    def __lt__(self, o): return self._cmp(o, lambda a, b: a < b, "<")
+    def __le__(self, o): return self._cmp(o, lambda a, b: a <= b, "<=")
+    def __gt__(self, o): return self._cmp(o, lambda a, b: a > b, ">")
+    def __ge__(self, o): return self._cmp(o, lambda a, b: a >= b, ">=")
 
     def __eq__(self, o):
-        r = self._cmp(o, lambda a, b: a == b)
+        r = self._cmp(o, lambda a, b: a == b, "==")
         return False if r is NotImplemented else r
 
     def __ne__(self, o):
-        r = self._cmp(o, lambda a, b: a != b)
+        r = self._cmp(o, lambda a, b: a != b, "!=")
         return True if r is NotImplemented else r
 
     def __bool__(self):
@@ -257,7 +398,11 @@ class SymInt:
         return E().concretise(self.t)
 
     __int__ = __index__
-    __trunc__ = __index__
+
+    def __trunc__(self): return self
+    def __floor__(self): return self
+    def __ceil__(self): return self
+    def __round__(self, n=None): return self
 
     def __float__(self):
         return float(self.__index__())
@@ -295,75 +440,74 @@ class SymInt:
 
 # ------------------------------------------------------------------------------------------
 class SymFloat:
-    """A float whose value is known *exactly* as a rational z3 Real term.
-
-    Exact mode only: every value is a real number; the operations + - * / on it are exact
-    real operations.  This is the truth only when no rounding happens, therefore every
-    arithmetic result carries `exact`: a z3 Bool saying "IEEE double arithmetic would have
-    produced exactly this real" which we can only establish for the cases below; whenever we
-    cannot, the operation raises Unsupported (the cell is then degraded, never mis-modelled).
-
-    Supported exactly:
-      * int -> float of |v| <= 2^53
-      * sums/differences/products of integral floats with |result| <= 2^53
-      * ratio a/b of two ints is kept symbolic as (num, den); math.trunc/floor/int of it is
-        exact integer division ONLY IF |a|,|b| <= 2^53 and the quotient's rounding cannot
-        cross an integer -- we do not attempt that: trunc(ratio) is Unsupported unless the
-        engine is told to use the FP kernel (see symex.fpkernel).
-    """
-    __slots__ = ("r", "num", "den")
+    """A float known to hold an *integral* value iv (int or SymInt) with |iv| <= 2^53, where
+    IEEE double arithmetic (+ - * between such values, with results in range) is exact.
+    Anything else (fractions, division, out of range) raises Unsupported: the engine never
+    mis-models rounding.  Real floating point lives in symex.fpkernel."""
+    __slots__ = ("iv",)
 
     LIM = 2 ** 53
 
-    def __init__(self, r, num=None, den=None):
-        self.r = r
-        self.num = num
-        self.den = den
+    def __init__(self, iv):
+        self.iv = iv
+
+    @staticmethod
+    def _inrange(v):
+        if isinstance(v, SymInt):
+            if not (v <= SymFloat.LIM):
+                return False
+            if not (v >= -SymFloat.LIM):
+                return False
+            return True
+        return -SymFloat.LIM <= v <= SymFloat.LIM
 
     @classmethod
     def of_int(cls, i):
-        t = iterm(i)
-        e = E()
-        if not e.decide(z3.simplify(z3.And(t <= cls.LIM, t >= -cls.LIM))):
+        if isinstance(i, SymBool):
+            i = i._i()
+        if not cls._inrange(i):
             raise Unsupported("int -> float beyond 2^53")
-        return cls(z3.ToReal(t), t, z3.IntVal(1))
+        return cls(i)
 
     @classmethod
     def ratio(cls, a, b):
-        at, bt = iterm(a), iterm(b)
-        e = E()
-        if e.decide(z3.simplify(bt == 0)):
+        if b == 0:
             raise ZeroDivisionError("division by zero")
         from symex import fpkernel
-        return fpkernel.int_truediv(at, bt)
+        return fpkernel.int_truediv(a, b)
 
     def _int_t(self):
-        """the integer term if this float is known integral"""
-        if self.den is not None and z3.is_int_value(self.den) and self.den.as_long() == 1:
-            return self.num
+        return iterm(self.iv)
+
+    @property
+    def r(self):
+        return z3.ToReal(iterm(self.iv))
+
+    @staticmethod
+    def _other(o):
+        if isinstance(o, SymFloat):
+            return o.iv
+        if isinstance(o, float):
+            if o != o or o in (float("inf"), float("-inf")) or o != int(o) \
+                    or abs(o) > SymFloat.LIM:
+                raise Unsupported("non-integral float constant in symbolic arithmetic")
+            return int(o)
+        if isinstance(o, SymBool):
+            return o._i()
+        if isinstance(o, (int, SymInt)):
+            if not SymFloat._inrange(o):
+                raise Unsupported("int -> float beyond 2^53")
+            return o
         return None
 
     def _binf(self, o, f):
-        if isinstance(o, float):
-            if o != int(o) or abs(o) > self.LIM:
-                raise Unsupported("non-integral float constant in symbolic arithmetic")
-            ot = z3.IntVal(int(o))
-        elif isinstance(o, SymFloat):
-            ot = o._int_t()
-        else:
-            ot = iterm(o)
-            if ot is not None:
-                e = E()
-                if not e.decide(z3.simplify(z3.And(ot <= self.LIM, ot >= -self.LIM))):
-                    raise Unsupported("int -> float beyond 2^53")
-        st = self._int_t()
-        if ot is None or st is None:
-            raise Unsupported("non-integral symbolic float arithmetic")
-        rt = z3.simplify(f(st, ot))
-        e = E()
-        if not e.decide(z3.simplify(z3.And(rt <= self.LIM, rt >= -self.LIM))):
+        ov = self._other(o)
+        if ov is None:
+            return NotImplemented
+        rv = f(self.iv, ov)
+        if not self._inrange(rv):
             raise Unsupported("float result beyond 2^53")
-        return SymFloat(z3.ToReal(rt), rt, z3.IntVal(1))
+        return SymFloat(rv)
 
     def __add__(self, o): return self._binf(o, lambda a, b: a + b)
     def __radd__(self, o): return self._binf(o, lambda a, b: b + a)
@@ -379,24 +523,28 @@ class SymFloat:
         raise Unsupported("symbolic float division")
 
     def __neg__(self):
-        st = self._int_t()
-        if st is None:
-            raise Unsupported("neg of non-integral symbolic float")
-        return SymFloat(z3.ToReal(-st), z3.simplify(-st), z3.IntVal(1))
+        return SymFloat(-self.iv)
+
+    def __abs__(self):
+        return SymFloat(abs(self.iv))
 
     def _cmpf(self, o, f):
-        if isinstance(o, SymFloat):
-            return _mkb(f(self.r, o.r))
-        if isinstance(o, float):
-            if o != o or o in (float("inf"), float("-inf")):
-                raise Unsupported("non finite float compare")
+        if isinstance(o, float) and o == o and o not in (float("inf"), float("-inf")) \
+                and o != int(o):
+            # integral value against a fractional constant: exact comparison over reals
             num, den = o.as_integer_ratio()
             return _mkb(f(self.r, z3.RealVal(num) / z3.RealVal(den)))
-        ot = iterm(o)
-        if ot is None:
+        if isinstance(o, float) and (o != o or o in (float("inf"), float("-inf"))):
+            raise Unsupported("non finite float compare")
+        if isinstance(o, float):
+            ov = int(o)
+        elif isinstance(o, SymFloat):
+            ov = o.iv
+        elif isinstance(o, (int, SymInt, SymBool)):
+            ov = o                       # Python compares int with float exactly
+        else:
             return NotImplemented
-        # int compared with float: Python compares exactly
-        return _mkb(f(self.r, z3.ToReal(ot)))
+        return f(self.iv, ov)
 
     def __lt__(self, o): return self._cmpf(o, lambda a, b: a < b)
     def __le__(self, o): return self._cmpf(o, lambda a, b: a <= b)
@@ -412,13 +560,10 @@ class SymFloat:
         return True if r is NotImplemented else r
 
     def __bool__(self):
-        return E().decide(z3.simplify(self.r != 0))
+        return bool(self.iv != 0)
 
     def __trunc__(self):
-        st = self._int_t()
-        if st is None:
-            raise Unsupported("trunc of non-integral symbolic float")
-        return _mk(st)
+        return self.iv
 
     __int__ = __trunc__
     __floor__ = __trunc__
@@ -426,17 +571,14 @@ class SymFloat:
 
     def __round__(self, n=None):
         if n is None:
-            return self.__trunc__()
+            return self.iv
         return self
 
     def is_integer(self):
-        return self._int_t() is not None
+        return True
 
     def _conc(self):
-        st = self._int_t()
-        if st is None:
-            raise Unsupported("concretise non-integral symbolic float")
-        return float(E().concretise(st))
+        return float(int(self.iv))
 
     def __float__(self): return self._conc()
     def __hash__(self): return hash(self._conc())
